@@ -95,6 +95,8 @@ func init() {
 		{"C10", "splitbits", props.SplitBits},
 		{"C11", "directwrite", props.TransportWriteExclusive},
 		{"C11", "lockduplex", props.C11lock},
+		{"C11", "bufferdrop", props.BufferedBytesKept},
+		{"C19", "bufferdrop", props.BufferedBytesKept},
 		{"C04", "constbalance", props.ConstBalance},
 		{"C03", "constbalance", props.ConstBalance},
 		{"C05", "constbalance", props.ConstBalance},
